@@ -246,33 +246,66 @@ class CFG:
             pre.append(ast.copy_location(ast.Assign(targets=[tmp], value=subj, lineno=st.lineno), st))
             subj = ast.Name(id=tmp.id, ctx=ast.Load())
 
-        def test(p: ast.pattern) -> ast.expr | None:
-            """None = always matches"""
+        def conj(parts: list[ast.expr | None]) -> ast.expr | None:
+            parts = [x for x in parts if x is not None]
+            if not parts:
+                return None
+            return parts[0] if len(parts) == 1 else ast.BoolOp(op=ast.And(), values=parts)
+
+        def test(p: ast.pattern, subj: ast.expr = subj, binds: list | None = None) -> ast.expr | None:
+            """None = always matches; captures (`case C(x=name)`) are appended to `binds` as (name, expr)"""
             if isinstance(p, ast.MatchValue):
                 return ast.Compare(left=subj, ops=[ast.Eq()], comparators=[p.value])
             if isinstance(p, ast.MatchSingleton):
                 return ast.Compare(left=subj, ops=[ast.Is()], comparators=[ast.Constant(value=p.value)])
             if isinstance(p, ast.MatchOr):
-                parts = [test(x) for x in p.patterns]
+                inner: list = []
+                parts = [test(x, subj, inner) for x in p.patterns]
+                if inner:
+                    raise AnalysisError(f"{self.func.where(st)}: captures inside an or-pattern are not modelled")
                 if any(x is None for x in parts):
                     return None
                 return ast.BoolOp(op=ast.Or(), values=parts)
-            if isinstance(p, ast.MatchClass) and not p.patterns and not p.kwd_patterns:
-                return ast.Call(func=ast.Name(id="isinstance", ctx=ast.Load()), args=[subj, p.cls], keywords=[])
-            if isinstance(p, ast.MatchAs) and p.pattern is None and p.name is None:
-                return None
+            if isinstance(p, ast.MatchClass):
+                # `case C(a=P, ...)`: isinstance(subject, C) and each attribute matches its sub-pattern; positional
+                # sub-patterns follow __match_args__, which for a dataclass / NamedTuple is the field order
+                names: list[str] = list(p.kwd_attrs)
+                subs: list[ast.pattern] = list(p.kwd_patterns)
+                if p.patterns:
+                    ty = self.prog.type_of(p.cls, self.func)
+                    cls = [self.prog.classes[a[1]] for a in ty if a[0] == "type" and a[1] in self.prog.classes]
+                    order = self.prog.all_fields(cls[0]) if len(cls) == 1 else []
+                    if len(order) < len(p.patterns):
+                        raise AnalysisError(f"{self.func.where(st)}: positional class pattern of {ast.unparse(p.cls)}: __match_args__ unknown")
+                    names = order[: len(p.patterns)] + names
+                    subs = list(p.patterns) + subs
+                parts = [ast.Call(func=ast.Name(id="isinstance", ctx=ast.Load()), args=[subj, p.cls], keywords=[])]
+                for nm, sp in zip(names, subs):
+                    parts.append(test(sp, ast.Attribute(value=subj, attr=nm, ctx=ast.Load()), binds))
+                return conj(parts)
+            if isinstance(p, ast.MatchAs):
+                inner_t = test(p.pattern, subj, binds) if p.pattern is not None else None
+                if p.name is not None:
+                    if binds is None:
+                        raise AnalysisError(f"{self.func.where(st)}: capture pattern `{p.name}` is not modelled here")
+                    binds.append((p.name, subj))
+                return inner_t
             raise AnalysisError(f"{self.func.where(st)}: match pattern {type(p).__name__} is not modelled")
 
         chain: list[ast.stmt] = []
         cur = chain
         for case in st.cases:
-            t = test(case.pattern)
+            binds: list = []
+            t = test(case.pattern, subj, binds)
+            body = [ast.copy_location(ast.Assign(targets=[ast.Name(id=nm, ctx=ast.Store())], value=ex, lineno=case.pattern.lineno), case.pattern) for nm, ex in binds] + list(case.body)
             if case.guard is not None:
+                if binds:
+                    raise AnalysisError(f"{self.func.where(st)}: a guard over captured names is not modelled")
                 t = case.guard if t is None else ast.BoolOp(op=ast.And(), values=[t, case.guard])
             if t is None:
-                cur.extend(case.body)
+                cur.extend(body)
                 break
-            node = ast.If(test=t, body=list(case.body), orelse=[])
+            node = ast.If(test=t, body=body, orelse=[])
             ast.copy_location(node, case.pattern)
             ast.fix_missing_locations(node)
             cur.append(node)
@@ -398,6 +431,8 @@ class CFG:
                 ast.copy_location(n, st)
             ast.fix_missing_locations(synth)
             return self._try(synth, ends)
+        if isinstance(st, ast.With) and any(self._repo_cm(it.context_expr) for it in st.items):
+            return self._stmts(self._desugar_with(st), ends)
         if isinstance(st, (ast.With, ast.AsyncWith)):
             for it in st.items:
                 ends = self._expr(it.context_expr, ends)
@@ -426,6 +461,72 @@ class CFG:
         if isinstance(st, (ast.Pass, ast.Import, ast.ImportFrom, ast.Global, ast.Nonlocal, ast.Delete)):
             return ends
         raise AnalysisError(f"{self.func.where(st)}: statement kind {type(st).__name__} is not modelled")
+
+    def _repo_cm(self, e: ast.expr) -> bool:
+        """the context expression is an instance of a repository class that defines __exit__ (not a lock, not a
+        library context manager): what happens at the end of the block is code of the repository"""
+        try:
+            t = self.prog.type_of(e, self.func)
+        except AnalysisError:
+            return False
+        cls = [self.prog.classes[a[1]] for a in t if a[0] == "cls" and a[1] in self.prog.classes]
+        return bool(cls) and all(self.prog.find_method(c, "__exit__") is not None and self.prog.find_method(c, "__enter__") is not None for c in cls)
+
+    def _desugar_with(self, st: ast.With) -> list[ast.stmt]:
+        """PEP 343 expansion of `with CM() as v: body` for a repository context manager (outermost item first):
+
+            cm = CM(); v = cm.__enter__(); ok = True
+            try:
+                try: body
+                except BaseException as e:
+                    ok = False
+                    if not cm.__exit__(type(e), e, None): raise
+            finally:
+                if ok: cm.__exit__(None, None, None)
+        """
+        it, rest = st.items[0], st.items[1:]
+        body: list[ast.stmt] = [ast.With(items=rest, body=st.body)] if rest else list(st.body)
+        if not self._repo_cm(it.context_expr):
+            inner = ast.With(items=rest, body=st.body)
+            out = ast.With(items=[it], body=self._desugar_with(inner) if any(self._repo_cm(x.context_expr) for x in rest) else [inner])
+            ast.copy_location(out, st)
+            ast.fix_missing_locations(out)
+            return [out]
+        k = f"{st.lineno}_{st.col_offset}"
+        cm, ok, ex = f"__cm_{k}", f"__ok_{k}", f"__exc_{k}"
+        # the synthetic locals are typed like the expressions they stand for
+        loc = self.prog.func_locals(self.func)
+        loc[cm] = self.prog.type_of(it.context_expr, self.func)
+        loc[ok] = frozenset({("ext", "bool")})
+        loc[ex] = frozenset({("ext", "exception")})
+
+        def name(n: str, store: bool = False) -> ast.Name:
+            return ast.Name(id=n, ctx=ast.Store() if store else ast.Load())
+
+        def call_exit(args: list[ast.expr]) -> ast.Call:
+            return ast.Call(func=ast.Attribute(value=name(cm), attr="__exit__", ctx=ast.Load()), args=args, keywords=[])
+
+        enter = ast.Call(func=ast.Attribute(value=name(cm), attr="__enter__", ctx=ast.Load()), args=[], keywords=[])
+        pre: list[ast.stmt] = [ast.Assign(targets=[name(cm, True)], value=it.context_expr)]
+        pre.append(ast.Assign(targets=[it.optional_vars], value=enter) if it.optional_vars is not None else ast.Expr(value=enter))
+        pre.append(ast.Assign(targets=[name(ok, True)], value=ast.Constant(value=True)))
+        handler = ast.ExceptHandler(
+            type=name("BaseException"),
+            name=ex,
+            body=[
+                ast.Assign(targets=[name(ok, True)], value=ast.Constant(value=False)),
+                ast.If(test=ast.UnaryOp(op=ast.Not(), operand=call_exit([ast.Call(func=name("type"), args=[name(ex)], keywords=[]), name(ex), ast.Constant(value=None)])), body=[ast.Raise(exc=None, cause=None)], orelse=[]),
+            ],
+        )
+        inner_try = ast.Try(body=body, handlers=[handler], orelse=[], finalbody=[])
+        outer_try = ast.Try(body=[inner_try], handlers=[], orelse=[], finalbody=[ast.If(test=name(ok), body=[ast.Expr(value=call_exit([ast.Constant(value=None)] * 3))], orelse=[])])
+        out = pre + [outer_try]
+        for n in out:
+            for sub in ast.walk(n):
+                if not hasattr(sub, "lineno") or getattr(sub, "lineno", None) is None:
+                    ast.copy_location(sub, st)
+            ast.fix_missing_locations(n)
+        return out
 
     def _is_suppress(self, e: ast.expr) -> bool:
         if not isinstance(e, ast.Call) or not e.args or e.keywords:
@@ -549,6 +650,11 @@ class CFG:
         k = n.kind
         if k == "call":
             names(n.ast, uses)
+            f = n.ast.func if isinstance(n.ast, ast.Call) else None
+            if isinstance(f, ast.Name) and f.id in self.func.nested:
+                # a closure reads its free variables when it is called, not where it is defined
+                for sub in self.func.nested.values():
+                    names(sub.node, uses)
         elif k == "await":
             names(n.ast, uses)
         elif k == "store":
